@@ -90,7 +90,7 @@ def run_temporal(case):
         if op[0] == "push":
             vals = _vals(op[1], i, numel, shape)
             if case["dtype"] == "int64":
-                vals = np.trunc(vals)
+                vals = np.trunc(vals) + (2 ** 24 + 1 if op[1][0] % 2 else 0)
             with impl(what):
                 rt.push(torch.tensor(vals, dtype=DT[case["dtype"]]), inplace=op[2])
                 n = rt.recordsz
@@ -144,6 +144,8 @@ def run_temporal(case):
             check(val.shape[0] == n and tuple(val.shape[1:]) == shape, "state:shape",
                   lambda: f"{what}: storage shape {tuple(val.shape)} for recordsz {n}, obs shape {shape}")
             check(0 <= ptr < n, "state:pointer", lambda: f"{what}: pointer {ptr} outside [0,{n})")
+            check(val.dtype == DT[case["dtype"]], "state:dtype",
+                  lambda: f"{what}: storage dtype became {val.dtype}, the record's dtype is {case['dtype']} (observations altered beyond conversion to the record's own type)")
             for k in range(n):
                 with impl(f"read({k}) after {what}"):
                     got = rt.read(k).detach().to(torch.float64).numpy().reshape(shape)
